@@ -1,19 +1,32 @@
 // C10  Contexts are immutable values and the runtime context is a per-thread stack.
 //
 // Targets
-//   ctx_map     stateful histories over a growing family of contexts (SetValue / SetValues /
-//               constructors / copies / drops) against a persistent-map model; EVERY live context
-//               is re-queried for EVERY pool key after every mutation
-//   rt_stack    Attach / Detach (any order, repeated, foreign) / token destruction / Scope programs
-//               against a stack model with identity matching; run on a brand-new thread (so the
-//               thread_local stack starts at capacity 0 and every deep case crosses the growth
-//               path) or on the driver thread after an explicit reset
-//   rt_threads  2..3 real threads run independent generated programs concurrently, each against
-//               its own model; a marker attached by one thread must never be visible on another
-// Oracle: reference models written from the property statement; ASan/UBSan.  Context identity
-// (operator==) is only asserted where the repository documents it (a copy equals its source,
-// contexts of different content differ, GetCurrent() equals the attached context); everything
-// else about identity is observed and fed into the stack model, so the model is two-sided there.
+//   ctx_map     stateful histories over a growing family of contexts (SetValue, SetValues with 0..3
+//               pairs in four container types, Context(key,value), Context(container), copies,
+//               destruction of a context that has descendants, long SetValue chains) against a
+//               persistent-map model; EVERY live context is re-queried for EVERY pool key (GetValue,
+//               HasKey, IsRootSpan, GetSpan) after every mutation
+//   rt_stack    Attach / Detach (any order, repeated, stale, foreign) / token destruction / Scope
+//               programs against a stack model with identity matching (most recent first, "pop down
+//               to and including", no change for a foreign token); GetCurrent(), value look-ups
+//               through the runtime context and the active span are compared after every step.  A
+//               case runs on a brand-new thread (the thread_local stack starts at capacity 0, so every
+//               deep case crosses the growth path again; depth up to 72) or, sometimes, on the driver
+//               thread after the stack was emptied through the API.  Helper threads provide foreign
+//               tokens and check that a new thread never sees what its creator attached.
+//   rt_threads  2..3 real threads run independent generated programs concurrently (with generated
+//               barriers and yields), each against its own model; every context carries a marker of
+//               its owner, a marker attached by one thread must never be visible on another; the
+//               driver thread holds a marker of its own for the whole run
+// Oracle: reference models written from the property statement; ASan/UBSan (TSan in the thorough
+// tier).  Context identity (operator==) is only asserted where the repository documents it (a copy
+// equals its source, contexts of different content differ, GetCurrent() equals the attached
+// context); everything else about identity is observed and fed into the stack model, so the model
+// is two-sided there.  Keys are passed as non NUL-terminated views whose storage is scribbled and
+// freed right after the call.
+// Findings of the unchanged tree: F19 (empty container creates a key-less node that answers for /
+// shadows the empty key), C10-nullkey (memcpy/memcmp with a null pointer for the empty key given as
+// string_view{}); the generator avoids each shape only when told so (--exclude).
 #include <atomic>
 #include <condition_variable>
 #include <cstring>
@@ -1203,27 +1216,19 @@ struct Machine
   {
     const Member &t  = top();
     ctx::Context cur = ctx::RuntimeContext::GetCurrent();
-    struct Where
-    {
-      const Machine *m;
-    } where{this};
-    struct WherePrinter
-    {
-      static std::string text(const Machine &m)
-      {
-        std::ostringstream o;
-        o << "after " << m.step << " (model depth " << m.stack.size() << ", expected current = ";
-        if (m.stack.empty())
-          o << "the empty context";
-        else
-          o << "#" << m.stack.back().fam << " " << m.top().how;
-        o << ")";
-        return o.str();
-      }
+    // rendered only when a check fails
+    auto where = [this] {
+      std::ostringstream o;
+      o << "after " << step << " (model depth " << stack.size() << ", expected current = ";
+      if (stack.empty())
+        o << "the empty context";
+      else
+        o << "#" << stack.back().fam << " " << top().how;
+      o << ")";
+      return o.str();
     };
-#define where WherePrinter::text(*where.m)
     if (t.live)
-      CK(cur == t.c, where << ": GetCurrent() is not the expected context");
+      CK(cur == t.c, where() << ": GetCurrent() is not the expected context");
     const KeyPool &kp = pool();
     for (unsigned ki : machine_keys())
     {
@@ -1231,43 +1236,42 @@ struct Machine
       nostd::string_view view(k.data(), k.size());
       MVal got = observe((ki & 1) ? cur.GetValue(view) : ctx::RuntimeContext::GetValue(view));
       MVal exp = lookup(t.m, k);
-      CK(got == exp, where << ": the current context answers " << show_val(got) << " for key "
+      CK(got == exp, where() << ": the current context answers " << show_val(got) << " for key "
                            << show_key(k) << ", expected " << show_val(exp));
     }
     {
       MVal got = observe(ctx::RuntimeContext::GetValue(kOwnerKey));
       MVal exp = lookup(t.m, kOwnerKey);
-      CK(got == exp, where << ": the current context carries the marker " << show_val(got)
+      CK(got == exp, where() << ": the current context carries the marker " << show_val(got)
                            << " but this thread's model says " << show_val(exp)
                            << " (a context attached by another thread is visible here?)");
-      CK(!cur.HasKey(kForeignKey), where << ": the current context is one that only a helper thread attached");
+      CK(!cur.HasKey(kForeignKey), where() << ": the current context is one that only a helper thread attached");
     }
     // a context of different content must not compare equal to the current one
     if (stack.size() >= 2)
     {
       const Member &below = fam[static_cast<size_t>(stack[stack.size() - 2].fam)];
       if (below.live && below.m != t.m)
-        CK(!(cur == below.c), where << ": GetCurrent() compares equal to the frame below the top");
+        CK(!(cur == below.c), where() << ": GetCurrent() compares equal to the frame below the top");
     }
     // active span
     MVal sv   = lookup(t.m, trace::kSpanKey);
     auto sp   = trace::Tracer::GetCurrentSpan();
     auto sp2  = trace::GetSpan(cur);
-    CK(sp.get() != nullptr && sp2.get() != nullptr, where << ": GetCurrentSpan()/GetSpan() returned null");
+    CK(sp.get() != nullptr && sp2.get() != nullptr, where() << ": GetCurrentSpan()/GetSpan() returned null");
     if (sv.alt == 5)
     {
-      CK(sp.get() == sv.ptr, where << ": Tracer::GetCurrentSpan() is not the span bound in the current context");
-      CK(sp2.get() == sv.ptr, where << ": trace::GetSpan(GetCurrent()) is not the span bound in the current context");
+      CK(sp.get() == sv.ptr, where() << ": Tracer::GetCurrentSpan() is not the span bound in the current context");
+      CK(sp2.get() == sv.ptr, where() << ": trace::GetSpan(GetCurrent()) is not the span bound in the current context");
     }
     else
     {
       CK(!objs.ours(sp.get()) && !sp->GetContext().IsValid(),
-         where << ": no span is active but Tracer::GetCurrentSpan() returned "
+         where() << ": no span is active but Tracer::GetCurrentSpan() returned "
                << (objs.ours(sp.get()) ? "one of the spans used earlier" : "a valid span"));
       CK(!objs.ours(sp2.get()) && !sp2->GetContext().IsValid(),
-         where << ": no span is active but trace::GetSpan(GetCurrent()) returned a real span");
+         where() << ": no span is active but trace::GetSpan(GetCurrent()) returned a real span");
     }
-#undef where
   }
 
   void push_frame(size_t fi, int creator)
